@@ -136,6 +136,26 @@ pub(crate) fn to_uri_path(service: &str, path: &str) -> String {
     format!("/{}/{}", sanitise(service), sanitise(path))
 }
 
+/// Percent encodes everything which is not an unreserved URI character (or a `:`).
+///
+/// Service and message names default to their type names, these can contain
+/// characters which are not valid in a URI path (`<`, `>`, `,`, ` `, `[`, `;`, ...).
+/// Escaping them (and `%` and `/` themselves) gives a valid path for any name and
+/// keeps distinct names distinct.
 fn sanitise(parameter: &str) -> String {
-    parameter.replace(['<', '>'], "-")
+    let mut sanitised = String::with_capacity(parameter.len());
+    for byte in parameter.bytes() {
+        match byte {
+            b'A'..=b'Z'
+            | b'a'..=b'z'
+            | b'0'..=b'9'
+            | b'-'
+            | b'.'
+            | b'_'
+            | b'~'
+            | b':' => sanitised.push(byte as char),
+            _ => sanitised.push_str(&format!("%{byte:02X}")),
+        }
+    }
+    sanitised
 }
